@@ -502,6 +502,7 @@ def run(ctx):
   from sa.rules import c05, c10, c11  # pylint: disable=g-import-not-at-top
   shared.rule_pipeline_simulation(ctx, 'C03.R14')
   shared.rule_no_swallowed_errors(ctx, 'C03.R15')
+  shared.rule_operator_sweep(ctx, 'C03.R16')
   c05.r10_constant_carries_data(ctx, 'C03.R13')
   c10.r7_selection_simulation(ctx, 'C03.R12', 'plan')
   c11.r23_resolution_table(ctx, 'C03.R10', 'an op resolves to no-quantize when its scope is unmatched, the rule says no_quantize, the rule targets another op, '
